@@ -602,15 +602,15 @@ func replayVerif(r *vk.Run, vc verifCase) {
 // ---- invalid flag values ---------------------------------------------------------------------------
 
 type badFlagCase struct {
-	Sub    string `json:"sub"`  // badflags
-	Kind   string `json:"kind"` // call | call-safe | load | raw-call | raw-load | token
-	Value  string `json:"value"`
-	F1     int    `json:"caller_flags"`
-	State  string `json:"state"`
-	Fault  string `json:"fault,omitempty"`
-	Seen   []int  `json:"flags_seen,omitempty"`
-	What   string `json:"what,omitempty"`
-	val    *big.Int
+	Sub   string `json:"sub"`  // badflags
+	Kind  string `json:"kind"` // call | call-safe | load | raw-call | raw-load | token
+	Value string `json:"value"`
+	F1    int    `json:"caller_flags"`
+	State string `json:"state"`
+	Fault string `json:"fault,omitempty"`
+	Seen  []int  `json:"flags_seen,omitempty"`
+	What  string `json:"what,omitempty"`
+	val   *big.Int
 }
 
 func badFlagValues() []*big.Int {
@@ -712,13 +712,14 @@ func runBadFlags(r *vk.Run, w *world) map[string]any {
 	}
 	sort.Strings(tl)
 	return map[string]any{
-		"cases":  len(cases),
-		"values": len(badFlagValues()),
-		"kinds":  "call / call-safe / load: compiled code of UA (called with every flag set) passes the value to System.Contract.Call / System.Runtime.LoadScript; raw-call / raw-load: the entry script (loaded with every flag set) does; token: NEF method token flags",
+		"cases":   len(cases),
+		"values":  len(badFlagValues()),
+		"kinds":   "call / call-safe / load: compiled code of UA (called with every flag set) passes the value to System.Contract.Call / System.Runtime.LoadScript; raw-call / raw-load: the entry script (loaded with every flag set) does; token: NEF method token flags",
 		"faulted": faulted,
 		"accepted_with_the_value_truncated_to_its_low_byte": truncated,
-		"accepted_kind_value": tl,
-		"oracle":              "a value whose low byte has a bit outside the four flags must fault (the tree's own range check); an accepted value must give the callee a subset of caller flags & low four bits of the value (safe: minus write/notify, loaded script: within ReadStates|AllowCall); strict mode (all values outside 0..15 fault) = " + fmt.Sprint(strictInvalidFlags),
+		"outcome_invalid-flags:accepted-truncated":          truncated,
+		"accepted_kind_value":                               tl,
+		"oracle":                                            "a value whose low byte has a bit outside the four flags must fault (the tree's own range check); an accepted value must give the callee a subset of caller flags & low four bits of the value (safe: minus write/notify, loaded script: within ReadStates|AllowCall); strict mode (all values outside 0..15 fault) = " + fmt.Sprint(strictInvalidFlags),
 	}
 }
 
@@ -762,10 +763,24 @@ func (w *world) badFlagOne(r *vk.Run, bc *badFlagCase) (violated bool) {
 		return false
 	}
 	if bc.F1 == fAll || !strings.HasPrefix(bc.What, "accepted") { // one report per value, not per caller flag set
-		r.Violation(key, bc)
+		badMu.Lock()
+		badReported[bc.Kind]++
+		badReported[""]++
+		a, b := badReported[bc.Kind], badReported[""]
+		badMu.Unlock()
+		if a <= 1 && b <= 4 { // a root cause is reported a few times at most
+			r.Violation(key, bc)
+		} else {
+			r.Outcome("badflags:suppressed-duplicate")
+		}
 	}
 	return true
 }
+
+var (
+	badMu       sync.Mutex
+	badReported = map[string]int{}
+)
 
 func replayBadFlag(r *vk.Run, bc badFlagCase) {
 	w, err := newWorld()
@@ -785,4 +800,32 @@ func replayBadFlag(r *vk.Run, bc badFlagCase) {
 		viol := w.badFlagOne(r, &c)
 		fmt.Printf("replay %d: %s value %s caller %s: %s seen=%v violated=%v %s\n", i, c.Kind, c.Value, fname(c.F1), c.State, c.Seen, viol, c.Fault)
 	}
+}
+
+// vfSpecs: the raw operations of VF through its non-safe method do and its manifest-safe method doSafe
+// (the flags / safe sub-checks run them with every flag set on the direct, viaA and viaAreq paths).
+func (w *world) vfSpecs() []*opSpec {
+	ub := w.UB.BytesBE()
+	put := []any{chainx.OpPut, []byte("x"), []byte("1")}
+	acc1 := chainx.Acc(1).ScriptHash().BytesBE()
+	combos := [][]argv{
+		{{"put", vfPut}, {"vk", []byte("vk")}, {"1", []byte("1")}},
+		{{"local-put", vfLocalPut}, {"vk", []byte("vk")}, {"1", []byte("1")}},
+		{{"delete", vfDelete}, {"vk", []byte("vk")}, {"nil", nil}},
+		{{"get", vfGet}, {"vk", []byte("vk")}, {"nil", nil}},
+		{{"notify", vfNotify}, {"1", 1}, {"nil", nil}},
+		{{"getflags", vfAssertFlags}, {"R-C-", 5}, {"nil", nil}},
+		{{"call", vfCall}, {"UB", ub}, {"run[put]", []any{"run", []any{[]any{put}}}}},
+		{{"call", vfCall}, {"UB", ub}, {"run[notify]", []any{"run", []any{[]any{[]any{chainx.OpNotify, 1}}}}}},
+		{{"call", vfCall}, {"UB", ub}, {"runSafe[put]", []any{"runSafe", []any{[]any{put}}}}},
+		{{"call", vfCall}, {"GAS", nativehashes.GasToken.BytesBE()}, {"transfer", []any{"transfer", []any{w.VF.Hash.BytesBE(), acc1, 0, nil}}}},
+		{{"call", vfCall}, {"self", w.VF.Hash.BytesBE()}, {"do[put]", []any{"do", []any{vfPut, []byte("vk"), []byte("1")}}}},
+		{{"token", vfToken}, {"nil", nil}, {"UB.run[put]", []any{put}}},
+		{{"token", vfToken}, {"nil", nil}, {"UB.run[notify]", []any{[]any{chainx.OpNotify, 1}}}},
+		{{"load", vfLoad}, {"call-UB.run[put]", callScript(w.UB, "run", 15, []any{put})}, {"nil", nil}},
+	}
+	mk := func(op, method string, safe bool) *opSpec {
+		return &opSpec{Op: op, Group: "u", Self: w.VF.Hash, Method: method, Safe: safe, Combos: combos, Full: len(combos), Paths: []string{"direct", "viaA", "viaAreq"}}
+	}
+	return []*opSpec{mk("safe:VF.doSafe", "doSafe", true), mk("vf:VF.do", "do", false)}
 }
